@@ -44,6 +44,23 @@ pub mod verif {
     };
 }
 
+/// Verification hooks: further crate-private items of the Noise handshake (identity payload
+/// decoder, protocol name and crypto resolver) for the external correspondence harness. Adds
+/// code only.
+#[cfg(feature = "verif")]
+pub mod verif_noise_identity {
+    pub use super::noise::{verif_decode_payload, VerifNoiseResolver, VERIF_NOISE_PARAMETERS};
+
+    /// Decode a `keys_proto::PublicKey` exactly as `RemotePublicKey::from_protobuf_encoding`
+    /// does and return its raw `Type` and `Data` fields (`None` if the protobuf decoder refuses
+    /// the bytes).
+    pub fn verif_decode_key_message(bytes: &[u8]) -> Option<(i32, Vec<u8>)> {
+        use prost::Message;
+
+        super::keys_proto::PublicKey::decode(bytes).ok().map(|key| (key.r#type, key.data))
+    }
+}
+
 /// The public key of a node's identity keypair.
 #[derive(Clone, Debug, PartialEq, Eq)]
 pub enum PublicKey {
